@@ -6,8 +6,9 @@
    (escapeChars through the verif hook on all single bytes and random strings, the setter state
    through VerifOptionState, Map.Xml bytes with and without the check, NewMapXml under
    decoder-side escaping).  Spec: Spec/EscSpec.v.
-   The MapSeq encoders (xmlseq.go) are modelled by C04; here only MapSeq.Xml's validity check is
-   transcribed (checked_at_empty) - the rest of the MapSeq clauses is covered by the Go-side oracle. *)
+   The MapSeq encoders (xmlseq.go) are modelled by C04; here their validity check is the same wrapper
+   checked_enc (since fix 122e022 also for MapSeq.Xml) - the rest of the MapSeq clauses is covered by
+   the Go-side oracle. *)
 From Mxj Require Import Spec.EscSpec Spec.CastSpec Proofs.EscP Proofs.C05P Proofs.C14Dec Run.RunXml.
 
 (* ---------------- character level, all strings ---------------- *)
@@ -111,30 +112,29 @@ Theorem C05_checked_is_run_wrapper : forall o accept r,
 Proof. exact checked_enc_run. Qed.
 Print Assumptions C05_checked_is_run_wrapper.
 
-(* MapSeq.Xml (xmlseq.go) runs the tokenizer over an empty string instead of its output: for an
-   acceptor that accepts the empty document - as encoding/xml does - the check rejects nothing ... *)
-Theorem C05_mapseq_xml_check_vacuous : forall o accept r,
+(* regression witness.  Before fix 122e022 MapSeq.Xml (xmlseq.go) ran the tokenizer over an empty
+   string instead of its output (checked_at_empty): for an acceptor that accepts the empty document -
+   as encoding/xml does - such a check rejects nothing, so ill-formed bytes came back with a nil error
+   (MapSeq{r: {#text: a<, #seq: 0}}.Xml() returned <r>a<</r>, nil; oracle key
+   mapseq-xml-check-ignores-output).  The repaired code reads the output like the other three
+   encoders, i.e. it is checked_enc and C05_checked_sound applies to all four. *)
+Theorem C05_check_at_empty_vacuous : forall o accept r,
   accept [] = true -> checked_at_empty o accept r = r.
 Proof. exact check_at_empty_vacuous_l. Qed.
-Print Assumptions C05_mapseq_xml_check_vacuous.
+Print Assumptions C05_check_at_empty_vacuous.
 
-(* ... so checked_sound is REFUTED for that encoder: ill-formed bytes are returned with a nil error.
-   Witness replayed on the implementation: MapSeq{a: {#text: x<y, #seq: 0}}.Xml() under
-   XmlCheckIsValid(true) returns <a>x<y</a>, nil (oracle key mapseq-xml-check-ignores-output).
-   NOT PROVED (false of the code): checked_sound for MapSeq.Xml; it holds for Map.Xml, Map.XmlIndent
-   and MapSeq.XmlIndent, whose check reads the output. *)
 Local Open Scope string_scope.
 Local Open Scope list_scope.
 Definition ex_accept (b : str) : bool := negb (containsb (s "x<y") b).
 Definition ex_chk_opts : opts := mko (s "-") false false false false false false true true false false false true false false (s "#").
-Theorem C05_checked_sound_mapseq_xml_refuted :
+Example C05_check_at_empty_unsound :
   exists o accept its, xmlCheckIsValid o = true /\ accept [] = true /\
-    checked_at_empty o accept (Ok its) = Ok its /\ accept (emit its) = false.
+    checked_at_empty o accept (Ok its) = Ok its /\ accept (emit its) = false /\
+    checked_enc o accept (Ok its) = Err EOther.
 Proof.
   exists ex_chk_opts, ex_accept, [IOpen (s "a") []; IText (s "x<y"); IClose (s "a")].
   vm_compute. repeat split.
 Qed.
-Print Assumptions C05_checked_sound_mapseq_xml_refuted.
 
 (* ---------------- non-vacuity ---------------- *)
 Definition ex_esc_opts : opts := mko (s "-") false false false false false false true true false false false true true false (s "#").
